@@ -27,8 +27,9 @@ KINDS = [('json', 'json', 'json', 'json'), ('json', 'dir', 'mem', 'gen'), ('dir'
 
 
 def bounds(tier):
-    return {'tasks': '<=3 (all DAGs), 4 (sample)' if tier == 'quick' else '<=4 (all DAGs)',
-            'later_requests': 2 if tier == 'quick' else 3, 'forced_set': 'every non-empty subset',
+    return {'tasks': '2 (all DAGs, 2 data-kind sets), 3 (5 of 8 DAGs), 4 (1 DAG)' if tier == 'quick' else
+                     '2 (all DAGs, 3 data-kind sets), 3 (all DAGs), 4 (8 of 64 DAGs)',
+            'later_requests': 1 if tier == 'quick' else 2, 'forced_set': 'every non-empty subset',
             'flags': ['recompute', 'delete_data'], 'failing_forced_run': True, 'second_force': True}
 
 
@@ -41,12 +42,12 @@ def cases(tier):
             if q and ki == 2:
                 continue
             for pre in range(4):
-                out.append((2, di, ki, 1 if q else 2, True, pre))
+                out.append((2, di, ki, 1 if q else 2, True, pre))      # thorough: two later requests
     for di in range(len(family.dag_specs(3))):
         if q and di not in (1, 3, 5, 6, 7):
             continue
         for pre in range(8):          # the pre-state is partitioned over worker processes
-            out.append((3, di, di % len(KINDS), 1, not q, pre))
+            out.append((3, di, di % len(KINDS), 1 if q else 2, False, pre))
     for di in range(len(family.dag_specs(4))):
         if (q and di != 43) or (not q and di % 8 != 3):
             continue
